@@ -123,7 +123,20 @@ func (p *StreamPool) Dump() {
 func (p *StreamPool) remove(conn *connection) {
 	verifYieldRW(1, &p.mu, true)
 	p.mu.Lock()
-	if _, ok := p.conns[conn.key]; ok {
+	// only if this very connection is still in the pool: its key may already
+	// belong to a newer connection (FlushWithOptions removes after unlocking)
+	if c, ok := p.conns[conn.key]; ok && c == conn {
+		delete(p.conns, conn.key)
+		p.free = append(p.free, conn)
+	}
+	p.mu.Unlock()
+}
+
+// removeGeneration removes conn unless its object has been handed out again
+// since the caller looked at it (under the connection's lock) and saw gen.
+func (p *StreamPool) removeGeneration(conn *connection, gen uint64) {
+	p.mu.Lock()
+	if c, ok := p.conns[conn.key]; ok && c == conn && conn.gen == gen {
 		delete(p.conns, conn.key)
 		p.free = append(p.free, conn)
 	}
